@@ -38,7 +38,11 @@
                  invalidation reset, awaiters) and ends the chunk's "loading" state; a load
                  superseded by a newer one leaves the chunk alone
      FixInvMax   cache2Chunk.invalidate never moves invalidatedAt backwards (two invalidate
-                 calls can reach a bucket in the opposite order of their clock readings)     *)
+                 calls can reach a bucket in the opposite order of their clock readings)
+   AnyTakesAwaiters = TRUE is a what-if: publishing stays with the load started last, but the
+   awaiters are answered by whichever load finishes first.  maybeAddChunk lets a request await
+   only because the load started last is fresh enough for it, so an older load answering it
+   breaks Freshness (must fail: SeriesCache_anyaw.cfg).                                      *)
 EXTENDS SeriesCacheAbs
 
 CONSTANTS NChunks,     \* chunk positions 1..NChunks
@@ -50,6 +54,7 @@ CONSTANTS NChunks,     \* chunk positions 1..NChunks
           MaxInv, MaxTrim, MaxFail,
           Age,         \* chunk position -> "old" | "linger" | "open"  (relation of now to chunk.end)
           FixAwait, FixPublish, FixInvMax,
+          AnyTakesAwaiters, \* what-if (TRUE): every finishing load takes chunk.awaiters, not only the one started last
           SeqInv,      \* TRUE: invalidate calls do not overlap (one invalidation goroutine, as in the product)
           MaxOps       \* bound on behaviour length for the export configurations (0 = none)
 
@@ -232,9 +237,10 @@ PostLoadCore(g) ==
            ok     == L.lok
            cdata  == [j \in 0..(CS - 1) |-> L.data[lc.cstart + j]]
            newest == ~FixPublish \/ L.now >= c.lsa
-           aws    == IF newest THEN c.aw ELSE <<>>
+           takes  == newest \/ AnyTakesAwaiters
+           aws    == IF takes THEN c.aw ELSE <<>>
            store  == ~c.det /\ ok /\ newest
-           c1     == [c EXCEPT !.aw = IF newest THEN <<>> ELSE @,
+           c1     == [c EXCEPT !.aw = IF takes THEN <<>> ELSE @,
                                !.data = IF store THEN cdata ELSE @,
                                !.size = IF store THEN 1 ELSE @,
                                !.inv = IF store /\ ~(c.lsa < c.inv) THEN 0 ELSE @,
